@@ -9,6 +9,7 @@ THEOREMS = [
     ("EG.props.C06", "C06_sig_complete"),
     ("EG.props.C06", "C06_sig_sound"),
     ("EG.props.C06", "C06_sig_mutation_rejected"),
+    ("EG.props.C06", "C06_sig_body_hash_is_payload"),
     ("EG.props.C06", "C06_jwt_sound_complete"),
     ("EG.props.C06", "C06_jwt_token_source"),
     ("EG.props.C06", "C06_jwt_mutation_rejected"),
